@@ -590,7 +590,8 @@ def corr_css_stream(check, ctx, c, rng):
 
 # ---------------------------------------------------------------------------------------------------
 # reset(): two documents through one decoder / encoder object (model: DSt.reset / ESt.reset)
-RESET_FINDING = 'C07-reset-keeps-encoding'
+# the former finding C07-reset-keeps-encoding is fixed (69a1bbe): no region left, every difference is a violation
+RESET_FINDING = 'C07-reset-keeps-encoding'      # id of the (fixed) entry; used by c07.known for a replay of its witness
 
 
 def corr_css_reset(check, ctx, c, rng):
@@ -668,7 +669,7 @@ def corr_css_reset(check, ctx, c, rng):
                     ctx.violate('a reset incremental decoder behaves like a fresh one', w,
                                 {'after_reset': 'raises' if totals[1] is None else totals[1],
                                  'fresh': 'raises' if fresh is None else fresh, 'self.encoding': d.encoding},
-                                known=RESET_FINDING if region else None)
+                                known=None)
             got = ' | '.join(('RAISE' if t is None else enc(t)) for t in totals) + (' | -' if len(totals) == 1 else '')
             if m is not None and norm(m) != norm(got):
                 ctx.disagree('IncrementalDecoder with reset()', w, got, m)
@@ -707,7 +708,7 @@ def corr_css_reset(check, ctx, c, rng):
                     ctx.violate('a reset incremental encoder behaves like a fresh one', w,
                                 {'after_reset': 'raises' if totals[1] is None else totals[1].hex(),
                                  'fresh': 'raises' if fresh is None else fresh.hex(), 'self.encoding': e.encoding},
-                                known=RESET_FINDING if region else None)
+                                known=None)
             got = ' | '.join(('RAISE' if t is None else encb(t)) for t in totals) + (' | -' if len(totals) == 1 else '')
             if m is not None and norm(m) != norm(got):
                 ctx.disagree('IncrementalEncoder with reset()', w, got, m)
